@@ -395,7 +395,12 @@ def item_strategy(version):
                   st.integers(-128, 127), tid, st.booleans()),
         st.tuples(st.just('unknown'), st.sampled_from(pool),
                   st.one_of(st.binary(max_size=30),
-                            st.binary(min_size=100, max_size=600))),
+                            st.binary(min_size=100, max_size=600),
+                            # frame bodies of exactly threshold-1 / threshold
+                            # / threshold+1 bytes (ids take 1-2 bytes): a
+                            # vanilla server compresses from len >= threshold
+                            st.integers(60, 66).map(lambda n: b'\x55' * n),
+                            st.integers(252, 258).map(lambda n: b'\xaa' * n))),
         st.tuples(st.just('time'), st.integers(-2 ** 63, 2 ** 63 - 1),
                   st.integers(-2 ** 63, 2 ** 63 - 1)),
         st.tuples(st.just('chat'), st.sampled_from(
@@ -437,8 +442,11 @@ def t_versions(ctx, versions):
                          [0, 31, -1, 8][i % 4], [0, 128, 2 ** 31 - 1][i % 3],
                          bool(i % 2)))
             hist.append(('time', i, -i))
+        for n in (61, 62, 63, 64, 65, 253, 254, 255, 256, 257):
+            hist.append(('unknown', pool[n % len(pool)], b'\x77' * n))
+            hist.append(('ka', n))
         k = 0
-        for comp in (None, 0, 256):
+        for comp in (None, 0, 64, 256):
             for delivery in ('all', 'reactive'):
                 case = {'version': v, 'compress': comp, 'history': hist,
                         'delivery': delivery, 'burst': 5,
@@ -460,7 +468,7 @@ def t_versions(ctx, versions):
                            'end': 'disconnect', 'plan': 'whole'})
     if versions:
         ctx.sample({'version': versions[0], 'history': hist[:6]}, 'fixed')
-    ctx.exhaustive_done('boundary history x 3 compression modes x 2 '
+    ctx.exhaustive_done('boundary history x 4 compression modes x 2 '
                         'deliveries + a 330-packet history at each listed '
                         'version')
 
